@@ -504,6 +504,63 @@ func c19SealDeniedNs(t *testing.T, out *vh.Out) {
 	}
 }
 
+// c19BatchUses: batch tokens are not stored, so a use count cannot be enforced on them: a create request (or a role) that
+// asks for a use-limited batch token must be refused — never answered with a token that is reported as num_uses = n and
+// serves any number of requests. Op line: batchuses <how> => refused | issued|uses:<requests it authorised, capped at n+3>
+func c19BatchUses(t *testing.T, out *vh.Out) {
+	for _, how := range []string{"params", "params-emax0", "params-period0", "role", "role-default-batch"} {
+		_, c, root, _ := c19Setup(t)
+		out.Reset()
+		const n = 1
+		var tok string
+		res := "refused"
+		switch how {
+		case "params", "params-emax0", "params-period0":
+			d := map[string]any{"type": "batch", "ttl": "1h", "policies": []string{"default"}, "num_uses": n}
+			if how == "params-emax0" {
+				d["explicit_max_ttl"] = "0"
+			}
+			if how == "params-period0" {
+				d["explicit_max_ttl"] = "0"
+				d["period"] = "0"
+			}
+			if cl, resp := vhReq(c, logical.UpdateOperation, "auth/token/create", root, d); cl == "ok" && resp != nil && resp.Auth != nil {
+				tok = resp.Auth.ClientToken
+			}
+		case "role", "role-default-batch":
+			tt := "batch"
+			if how == "role-default-batch" {
+				tt = "default-batch"
+			}
+			rcl, _ := vhReq(c, logical.UpdateOperation, "auth/token/roles/c19batch", root, map[string]any{"token_type": tt, "token_num_uses": n, "orphan": true})
+			if rcl == "ok" {
+				if cl, resp := vhReq(c, logical.UpdateOperation, "auth/token/create/c19batch", root, map[string]any{"ttl": "1h", "policies": []string{"default"}}); cl == "ok" && resp != nil && resp.Auth != nil {
+					if resp.Auth.TokenType == logical.TokenTypeBatch {
+						tok = resp.Auth.ClientToken
+					} else {
+						res = "service" // a service token: its use count is enforced (covered by the trace cases)
+					}
+				}
+			}
+		}
+		if tok != "" {
+			uses := 0
+			for i := 0; i < n+3; i++ {
+				if cl, _ := vhReq(c, logical.ReadOperation, "auth/token/lookup-self", tok, nil); cl != "ok" {
+					break
+				}
+				uses++
+			}
+			res = fmt.Sprintf("issued|uses:%d", uses)
+			if uses > n {
+				res += fmt.Sprintf("!VIOL:a batch token issued with num_uses=%d authorised %d requests (batch tokens are not stored: the count is never enforced)#batch-token-use-limit-unenforced", n, uses)
+			}
+		}
+		out.Op(res, "batchuses", how)
+		_ = c.Shutdown()
+	}
+}
+
 // c19OrphanRace: the use count against a writer that is not a use — the orphaning loop of revokeInternal (and tidy)
 // rewrites a child's token entry with Parent = "". Thread 0 revokes (revoke-orphan) the parent P of a use-limited child C
 // and is held right after it has read C's entry (a storage Get that has been performed but has not returned yet); thread 1
@@ -614,6 +671,7 @@ func TestVerifC19(t *testing.T) {
 	c19SealDenied(t, out)
 	c19SealDeniedNs(t, out)
 	c19OrphanRace(t, out)
+	c19BatchUses(t, out)
 	c19NsLast(t, out)
 	cases := vh.EnvInt("VERIF_C19_CASES", 150)
 	if vh.Thorough() {
